@@ -11,6 +11,7 @@ package codec
 import (
 	"bytes"
 	"context"
+	"crypto/sha256"
 	"encoding/binary"
 	"encoding/hex"
 	"encoding/json"
@@ -36,8 +37,10 @@ import (
 	pbv1 "github.com/obolnetwork/charon/core/corepb/v1"
 	"github.com/obolnetwork/charon/core/dutydb"
 	"github.com/obolnetwork/charon/core/parsigdb"
+	"github.com/obolnetwork/charon/core/parsigex"
 	"github.com/obolnetwork/charon/eth2util"
 	"github.com/obolnetwork/charon/tbls"
+	"github.com/libp2p/go-libp2p/core/peer"
 	"github.com/obolnetwork/charon/testutil/beaconmock"
 
 	"verif/harness/hx"
@@ -90,7 +93,21 @@ type ECase struct {
 	ReencIsInput  bool `json:"reenc_is_input"`
 }
 
+// verifyClass: what the real parsigex verifier does with a decoded partial signature:
+// "not-eth2" (refused because the value is not a core.Eth2SignedData), "ran" (any other return), "panic".
+func (e *env) verifyClass(duty core.DutyType, psd core.ParSignedData) string {
+	var err error
+	if p, _ := safe(func() { err = e.verify(e.ctx, peer.ID("sender"), core.Duty{Slot: 1, Type: duty}, testPK, psd) }); p {
+		return "panic"
+	}
+	if err != nil && strings.Contains(err.Error(), "invalid eth2 signed data") {
+		return "not-eth2"
+	}
+	return "ran"
+}
+
 type DCase struct {
+	Verify string `json:"verify"` // signed cases with a decoded value: verifyClass
 	ID     int               `json:"id"`
 	Signed bool              `json:"signed"`
 	Duty   int               `json:"duty"`
@@ -130,6 +147,7 @@ type Out struct {
 }
 
 type recorder struct {
+	ev       *env
 	out      Out
 	byKey    map[string]*Finding
 	nextID   int
@@ -187,6 +205,24 @@ type env struct {
 	ctx    context.Context
 	eth2Cl eth2wrap.Client
 	pubkey tbls.PublicKey
+	// verify is the real partial signature verifier of the parsigex receive path (parsigex.NewEth2Verifier),
+	// for a cluster lock that knows testPK with public shares for the share indices the harness uses.
+	verify func(context.Context, peer.ID, core.Duty, core.PubKey, core.ParSignedData) error
+	// pending: accepted values waiting for the JSON-wire leg of the accept => re-encode round trip
+	pending []pendingRT
+	seenRT  map[string]bool
+}
+
+type pendingRT struct {
+	duty   core.DutyType
+	signed bool
+	val    any
+	input  []byte
+	format string
+	entry  string
+	key    string
+	kind   string
+	path   string
 }
 
 func newEnv(t *testing.T) *env {
@@ -199,7 +235,11 @@ func newEnv(t *testing.T) *env {
 	t.Cleanup(func() { _ = bmock.Close() })
 	var pk tbls.PublicKey
 	pk[0] = 0xa0
-	return &env{ctx: ctx, eth2Cl: bmock, pubkey: pk}
+	verify, err := parsigex.NewEth2Verifier(bmock, map[core.PubKey]map[int]tbls.PublicKey{testPK: {1: pk, 3: pk, 7: pk}})
+	if err != nil {
+		t.Fatalf("eth2 verifier: %v", err)
+	}
+	return &env{ctx: ctx, eth2Cl: bmock, pubkey: pk, verify: verify, seenRT: map[string]bool{}}
 }
 
 type opRes struct {
@@ -233,6 +273,9 @@ func (e *env) signedOps(duty core.DutyType, psd core.ParSignedData) []opRes {
 		try("Epoch", func() { _, _ = es.Epoch(e.ctx, e.eth2Cl); _ = es.DomainName() })
 		try("Verify", func() { _ = core.VerifyEth2SignedData(e.ctx, e.eth2Cl, es, e.pubkey) })
 	}
+	// parsigex.handle: verifyFunc(ctx, sender, duty, pubkey, data) for every entry of the decoded set, on the
+	// libp2p stream handler goroutine (no recover)
+	try("ParSigExVerify", func() { _ = e.verify(e.ctx, peer.ID("sender"), core.Duty{Slot: 1, Type: duty}, testPK, psd) })
 	try("ParSigDBStore", func() {
 		db := parsigdb.NewMemDB(2, nopDeadliner{make(chan core.Duty)}, parsigdb.NewMemDBMetadata(12, time.Unix(0, 0)))
 		_ = db.StoreExternal(e.ctx, core.Duty{Slot: 1, Type: duty}, core.ParSignedDataSet{testPK: psd})
@@ -316,6 +359,8 @@ func (e *env) explore(rc *recorder, duties []core.DutyType, data []byte, format,
 				k, kind, path := keyf(true, goTypeName(psd.SignedData), r.Op)
 				rc.find(Finding{Key: k, Class: "panic", Type: goTypeName(psd.SignedData), Kind: kind, Path: path, Op: r.Op, Duty: int(d), Signed: true, Format: format, Input: render(format, data), Msg: r.Msg, Entry: entryName})
 			}
+			k, kind, path := keyf(true, goTypeName(psd.SignedData), "reencode")
+			e.acceptRT(rc, pendingRT{duty: d, signed: true, val: psd, input: data, format: format, entry: entryName, key: k, kind: kind, path: path})
 		}
 		rc.stat("decode_attempts", 1)
 
@@ -329,9 +374,73 @@ func (e *env) explore(rc *recorder, duties []core.DutyType, data []byte, format,
 				k, kind, path := keyf(false, goTypeName(ud), r.Op)
 				rc.find(Finding{Key: k, Class: "panic", Type: goTypeName(ud), Kind: kind, Path: path, Op: r.Op, Duty: int(d), Signed: false, Format: format, Input: render(format, data), Msg: r.Msg, Entry: entryName})
 			}
+			k, kind, path := keyf(false, goTypeName(ud), "reencode")
+			e.acceptRT(rc, pendingRT{duty: d, signed: false, val: ud, input: data, format: format, entry: entryName, key: k, kind: kind, path: path})
 		}
 		rc.stat("decode_attempts", 1)
 	}
+}
+
+// acceptRT: whatever the decoder accepted from a peer must re-encode (ToProto) and decode again (FromProto) to
+// the same value, in the wire format in force (SSZ where the type has it) now, and in the JSON wire format
+// later (pending, see TestGen/accept-json-leg): the node re-broadcasts and stores what it accepted.
+func (e *env) acceptRT(rc *recorder, p pendingRT) {
+	h := fmt.Sprintf("%d/%v/%x", p.duty, p.signed, sha256.Sum256(p.input))
+	if e.seenRT[h] {
+		return
+	}
+	e.seenRT[h] = true
+	e.checkRT(rc, p, "ssz-wire")
+	e.pending = append(e.pending, p)
+}
+
+func (e *env) checkRT(rc *recorder, p pendingRT, leg string) {
+	rc.stat("accept_reencode_"+leg, 1)
+	why := ""
+	typ := ""
+	if pn, msg := safe(func() {
+		if p.signed {
+			psd := p.val.(core.ParSignedData)
+			typ = goTypeName(psd.SignedData)
+			pb, err := core.ParSignedDataToProto(psd)
+			if err != nil {
+				why = "accepted value does not re-encode: " + err.Error()
+				return
+			}
+			back, err := core.ParSignedDataFromProto(p.duty, pb)
+			if err != nil {
+				why = "the re-encoding of an accepted value is refused by the decoder: " + err.Error()
+				return
+			}
+			if back.ShareIdx != psd.ShareIdx {
+				why = "share index changed"
+				return
+			}
+			why = sameLoose(psd.SignedData, back.SignedData)
+		} else {
+			ud := p.val.(core.UnsignedData)
+			typ = goTypeName(ud)
+			pb, err := core.UnsignedDataSetToProto(core.UnsignedDataSet{testPK: ud})
+			if err != nil {
+				why = "accepted value does not re-encode: " + err.Error()
+				return
+			}
+			back, err := core.UnsignedDataSetFromProto(p.duty, pb)
+			if err != nil {
+				why = "the re-encoding of an accepted value is refused by the decoder: " + err.Error()
+				return
+			}
+			why = sameLoose(ud, back[testPK])
+		}
+	}); pn {
+		why = "panic: " + msg
+	}
+	if why == "" {
+		return
+	}
+	key := strings.Replace(p.key, "C14:panic:", "C14:accept-roundtrip:", 1) + ":" + leg
+	rc.find(Finding{Key: key, Class: "accept-roundtrip", Type: typ, Kind: p.kind, Path: p.path, Op: "reencode-" + leg, Duty: int(p.duty), Signed: p.signed,
+		Format: p.format, Input: render(p.format, p.input), Msg: why, Entry: p.entry})
 }
 
 func render(format string, data []byte) string {
@@ -402,6 +511,77 @@ func same(orig, back any) string {
 		return fmt.Sprintf("canonicalise: %v / %v", e1, e2)
 	}
 	if !bytes.Equal(j1, j2) {
+		return "JSON re-encoding differs: " + firstDiff(j1, j2)
+	}
+	if !bytes.Equal(s1, s2) {
+		return "SSZ re-encoding differs: " + firstDiff([]byte(hex.EncodeToString(s1)), []byte(hex.EncodeToString(s2)))
+	}
+	if r1 != r2 {
+		return "signing root / signature differs: " + r1 + " vs " + r2
+	}
+	return ""
+}
+
+// normJSON: JSON tree with null and the empty list identified (a nil and an empty Go slice encode differently
+// in JSON but identically in SSZ and in the hash tree root), and without the keys in drop at the top level.
+func normJSON(b []byte, drop ...string) any {
+	dec := json.NewDecoder(bytes.NewReader(b))
+	dec.UseNumber()
+	var tree any
+	if err := dec.Decode(&tree); err != nil {
+		return string(b)
+	}
+	var norm func(n any) any
+	norm = func(n any) any {
+		switch x := n.(type) {
+		case nil:
+			return []any{}
+		case map[string]any:
+			for k, v := range x {
+				x[k] = norm(v)
+			}
+			return x
+		case []any:
+			for i, v := range x {
+				x[i] = norm(v)
+			}
+			return x
+		}
+		return n
+	}
+	tree = norm(tree)
+	if m, ok := tree.(map[string]any); ok {
+		for _, k := range drop {
+			delete(m, k)
+		}
+	}
+	return tree
+}
+
+// sameLoose is [same] for values that came from a peer: JSON re-encodings are compared as trees modulo
+// null / empty list; for VersionedAggregatedAttestation the validator index (carried by its JSON form only,
+// documented deviation) is ignored.
+func sameLoose(orig, back any) string {
+	if reflect.TypeOf(orig) != reflect.TypeOf(back) {
+		return fmt.Sprintf("type %T != %T", orig, back)
+	}
+	var j1, s1, j2, s2 []byte
+	var r1, r2 string
+	var e1, e2 error
+	if p, msg := safe(func() { j1, s1, r1, e1 = canonical(orig) }); p {
+		return "panic canonicalising the accepted value: " + msg
+	}
+	if p, msg := safe(func() { j2, s2, r2, e2 = canonical(back) }); p {
+		return "panic canonicalising the result: " + msg
+	}
+	if e1 != nil || e2 != nil {
+		return fmt.Sprintf("canonicalise: %v / %v", e1, e2)
+	}
+	var drop []string
+	if _, ok := orig.(core.VersionedAggregatedAttestation); ok {
+		drop = []string{"validator_index"}
+	}
+	if !reflect.DeepEqual(normJSON(j1, drop...), normJSON(j2, drop...)) {
 		return "JSON re-encoding differs: " + firstDiff(j1, j2)
 	}
 	if !bytes.Equal(s1, s2) {
@@ -943,16 +1123,17 @@ func (rc *recorder) dispatchCasesFor(duties []core.DutyType, data []byte, label 
 	uo := typeOracle(unsignedTypes, data)
 	prefix := hex.EncodeToString(data[:min(len(data), 24)])
 	for _, d := range duties {
-		exp := ""
+		exp, vc := "", ""
 		if p, _ := safe(func() {
 			psd, err := decodeSigned(d, data)
 			if err == nil {
 				exp = goTypeName(psd.SignedData)
+				vc = rc.ev.verifyClass(d, psd)
 			}
 		}); p {
 			exp = "PANIC"
 		}
-		rc.out.DCases = append(rc.out.DCases, DCase{ID: rc.id(), Signed: true, Duty: int(d), Prefix: prefix, Oracle: so, Expect: exp, Label: label})
+		rc.out.DCases = append(rc.out.DCases, DCase{ID: rc.id(), Signed: true, Duty: int(d), Prefix: prefix, Oracle: so, Expect: exp, Label: label, Verify: vc})
 		exp = ""
 		if p, _ := safe(func() {
 			ud, err := decodeUnsigned(d, data)
@@ -1097,6 +1278,37 @@ func (e *env) jsonMutations(rc *recorder, en entry, js []byte, r *rand.Rand, kin
 	walk(tree, nil, func(p jpath, n any) { paths = append(paths, p); nodes = append(nodes, n) })
 	rc.stat("json_nodes", len(paths))
 	duties := []core.DutyType{en.Duty}
+	// bitlists / bitvectors (aggregation_bits, committee_bits, sync_committee_bits, ...): encodings that a
+	// JSON decoder may take but that are not SSZ bitlists (no sentinel bit, trailing zero byte, empty), or have
+	// another length
+	for i, p := range paths {
+		str, isStr := nodes[i].(string)
+		if !isStr || len(p) == 0 {
+			continue
+		}
+		if k, ok := p[len(p)-1].(string); !ok || !strings.Contains(k, "bits") {
+			continue
+		}
+		body := strings.TrimPrefix(str, "0x")
+		variants := [][2]string{{"bits-empty", "0x"}, {"bits-00", "0x00"}, {"bits-ff00", "0xff00"}, {"bits-0100", "0x0100"}, {"bits-01", "0x01"},
+			{"bits-trailing00", "0x" + body + "00"}, {"bits-extra-byte", "0x" + body + "01"}, {"bits-0000", "0x0000"}, {"bits-nohex", body}}
+		if len(body) >= 2 {
+			variants = append(variants, [2]string{"bits-short", "0x" + body[:len(body)-2]})
+			variants = append(variants, [2]string{"bits-last00", "0x" + body[:len(body)-2] + "00"})
+		}
+		for _, v := range variants {
+			mj, err := json.Marshal(rewrite(tree, p, v[1]))
+			if err != nil {
+				continue
+			}
+			rc.stat("json_mutants", 1)
+			rc.stat("json_mutants_bits", 1)
+			kind, ps := v[0], p.String()
+			e.explore(rc, duties, mj, "json", en.Name, func(signed bool, typ, op string) (string, string, string) {
+				return "C14:panic:" + typ + ":" + kind + ":" + ps + ":" + op, kind, ps
+			})
+		}
+	}
 	for i, p := range paths {
 		for _, kind := range kinds {
 			if kind != "null" && sampleNonNull > 0 && r.Intn(sampleNonNull) != 0 {
@@ -1213,6 +1425,7 @@ func TestGen(t *testing.T) {
 	rc := &recorder{byKey: map[string]*Finding{}}
 	rc.out.Stats = map[string]int{}
 	ev := newEnv(t)
+	rc.ev = ev
 
 	// replay of one recorded input
 	var rp Replay
@@ -1248,6 +1461,12 @@ func TestGen(t *testing.T) {
 		}
 		ev.explore(rc, dutyTypes, data, rp.Format, "replay", func(signed bool, typ, op string) (string, string, string) {
 			return "replay:" + typ + ":" + op, "", ""
+		})
+		t.Run("accept-json-leg", func(t *testing.T) {
+			core.DisableSSZMarshallingForT(t)
+			for _, p := range ev.pending {
+				ev.checkRT(rc, p, "json-wire")
+			}
 		})
 		for _, f := range rc.out.Findings {
 			fmt.Printf("REPLAY %s duty=%d signed=%v: %s\n", f.Key, f.Duty, f.Signed, f.Msg)
@@ -1758,6 +1977,14 @@ func TestGen(t *testing.T) {
 			rc.stat("set_marshal", 1)
 		}
 	}
+
+	// ---- JSON-wire leg of accept => re-encode round trip, for everything any decode above accepted
+	t.Run("accept-json-leg", func(t *testing.T) {
+		core.DisableSSZMarshallingForT(t)
+		for _, p := range ev.pending {
+			ev.checkRT(rc, p, "json-wire")
+		}
+	})
 
 	rc.out.Samples = []string{}
 	for i, c := range rc.out.ECases {
